@@ -651,6 +651,10 @@ class Message:
                 self.tsig.add(new_tsig)
                 if multi:
                     self.tsig_ctx = ctx
+            if r.was_padded:
+                # The TSIG size was reserved (and the padding computed) for an
+                # uncompressed owner name, so do not compress it.
+                r.compress = {}
             r.add_rrset(dns.renderer.ADDITIONAL, self.tsig)
             r.write_header()
         wire = r.get_wire()
